@@ -214,6 +214,13 @@ def plan(spec, model):
         if model.get(f'umode_invisible_{n}'): m += 'i'
         if model.get(f'umode_wallops_{n}'): m += 'w'
         if m: steps.append((n, f'MODE {n} +{m}'))
+        # modes every user gets from [default_user_modes] and this user has dropped
+        dmodes = spec.default_user_modes or {}
+        rem = ''
+        if dmodes.get('invisible') and not model.get(f'umode_invisible_{n}'): rem += 'i'
+        if dmodes.get('wallops') and not model.get(f'umode_wallops_{n}'): rem += 'w'
+        if dmodes.get('local_oper') and not model.get(f'umode_local_oper_{n}', True): rem += 'O'
+        if rem: steps.append((n, f'MODE {n} -{rem}'))
         if model.get(f'umode_oper_{n}'):
             if not spec.operators: raise Unreachable(f'{n} is an operator but no operator is configured')
             steps.append((n, f'OPER {spec.operators[0][0]} {spec.operators[0][1]}'))
@@ -381,7 +388,7 @@ def replay_witness(run, prog, case, witness, release=False, probes=True):
             if spec.password: c.send('PASS ' + spec.password)
             mp = bool(model.get(f'multi_prefix_{n}'))
             if mp: c.send('CAP LS'); c.send('CAP REQ :multi-prefix')
-            c.send(f'NICK {n}'); c.send(f'USER {n} 0 * :Real {n}')
+            c.send(f'NICK {n}'); c.send(f'USER {spec.uname(n)} 0 * :Real {n}')
             if mp: c.send('CAP END')
             got = c.barrier()
             if not any(b' 001 ' in l for l in got):
